@@ -3,46 +3,12 @@
 // (property C14, the bookkeeping half).  The items sit in `macro_rules! impl_graph_traits`; they are
 // extracted from the macro body with `$graph_type` := StableDiGraph (rules D7 / N7).
 // ======================================================================================
-use core::cell::RefCell;
-// `RefCell` is only named as the type of two scratch fields that the functions under contract never touch
-#[verifier::reject_recursive_types(T)]
-#[verifier::external_type_specification]
-#[verifier::external_body]
-pub struct ExRefCell<T: ?Sized>(RefCell<T>);
-
 //@ item src/graph_impl/stable_graph/mod.rs | - | type StableDiGraph
 /// A `StableGraph` with directed edges.
 ///
 /// For example, an edge from *1* to *2* is distinct from an edge from *2* to
 /// *1*.
 pub type StableDiGraph<N, E, Ix = DefaultIx> = StableGraph<N, E, Directed, Ix>;
-//@ end
-
-// hand-expanded `NodeIndexable! {delegate_impl []}` (src/visit/mod.rs; macro_rules expansion, NOT extracted): &G forwards to G
-impl<'a, G: NodeIndexable> NodeIndexable for &'a G {
-    open spec fn is_nid(&self, a: G::NodeId) -> bool { (**self).is_nid(a) }
-    open spec fn nbound(&self) -> usize { (**self).nbound() }
-    open spec fn ix_of(&self, a: G::NodeId) -> usize { (**self).ix_of(a) }
-    proof fn ix_inj_law(&self, a: G::NodeId, b: G::NodeId) { (**self).ix_inj_law(a, b); }
-    fn node_bound(self: &Self) -> usize { (**self).node_bound() }
-    fn to_index(self: &Self, a: G::NodeId) -> usize { (**self).to_index(a) }
-    fn from_index(self: &Self, i: usize) -> G::NodeId { (**self).from_index(i) }
-}
-
-//@ item src/acyclic.rs | - | struct Acyclic
-pub struct Acyclic<G: Visitable> {
-    /// The underlying graph, accessible through the `inner` method.
-    pub graph: G,
-    /// The current topological order of the nodes.
-    pub order_map: OrderMap<G::NodeId>,
-
-    // We fix the internal DFS maps to FixedBitSet instead of G::VisitMap to do
-    // faster resets (by just setting bits to false)
-    /// Helper map for DFS tracking discovered nodes.
-    pub discovered: RefCell<FixedBitSet>,
-    /// Helper map for DFS tracking finished nodes.
-    pub finished: RefCell<FixedBitSet>,
-}
 //@ end
 
 impl<N, E, Ix: IndexType> Acyclic<StableDiGraph<N, E, Ix>> {
@@ -122,9 +88,22 @@ impl<N, E, Ix: IndexType> Acyclic<StableDiGraph<N, E, Ix>> {
                 /*R:D16 self.graph.node_weight(n)?; */ match self.graph.node_weight(n) { None => { return None; }, Some(__w) => {} } /*-*/
                 /*+*/proof { if nlive(old(self).graph.ns(), n.i()) { assert(old(self).order_map.present(n)); } }/*-*/
                 self.order_map.remove_node(n, &self.graph);
-                /*+*/let r = {/*-*/ self.graph.remove_node(n) /*+*/};
+                // A graph with compact indices moves its last node into the
+                // freed slot: that node then needs its position under its
+                // new index.
+                /*+*/proof { self.graph.lemma_nbound(); assert(nlive(self.graph.ns(), n.i())); let b = self.graph.nbound(); assert(nlive(self.graph.ns(), b - 1)); }/*-*/
+                let last = NodeIndex::new(self.graph.node_bound() - 1);
+                /*+*/proof { self.graph.lemma_nbound(); Ix::ix_bound(n.0); let ll: NodeIndex<Ix> = last; assert(ll.i() == self.graph.nbound() - 1); assert(nlive(self.graph.ns(), ll.i())); }
+                let ghost om1 = self.order_map;/*-*/
+                let weight = self.graph.remove_node(n);
+                /*+*/proof { Ix::eq_law(); if last.i() != n.i() { assert(nlive(self.graph.ns(), last.i())); } }/*-*/
+                if last != n && self.graph.node_weight(last).is_none() {
+                    self.order_map.rename_node(last, n, &self.graph);
+                }
+                /*+*/let r = {/*-*/ weight /*+*/};
                 proof {
-                    let g0 = old(self).graph; let g1 = self.graph; let om0 = old(self).order_map; let om1 = self.order_map;
+                    assert(self.order_map == om1);
+                    let g0 = old(self).graph; let g1 = self.graph; let om0 = old(self).order_map;
                     assert forall|p: TopologicalPosition| om1.p2n().contains_key(p) implies
                         (&g1).is_nid(#[trigger] om1.p2n()[p]) && (&g1).ix_of(om1.p2n()[p]) < om1.n2p().len() && om1.n2p()[(&g1).ix_of(om1.p2n()[p]) as int] == p by {
                         let x = om1.p2n()[p];
